@@ -168,19 +168,22 @@ structure TiFacts (ti : Terminfo) : Prop where
   fRGB : ti.setFgRGB = [] ∨ ti.setFgRGB = setfRGB
   bRGB : ti.setBgRGB = [] ∨ ti.setBgRGB = setbRGB
   fbRGB : ti.setFgBgRGB = [] ∨ ti.setFgBgRGB = setfbRGB
-  noCorner : (ti.autoMargin && ti.disableAutoMargin.isEmpty && !ti.insertChar.isEmpty) = false
   coh1 : ti.setFgRGB.isEmpty = ti.setBgRGB.isEmpty
   coh2 : ti.setFgBgRGB.isEmpty = true ∨ ti.setFgRGB.isEmpty = false
 
-theorem xl_tiOk {ti : Terminfo} (h : XtermLike ti = true) : tiOk ti = true := by
-  simp only [XtermLike, Bool.and_eq_true] at h; exact h.1
+theorem xl_tiOk {ti : Terminfo} (h : CapsOk ti = true) : tiCapsOk ti = true := by
+  simp only [CapsOk, Bool.and_eq_true] at h; exact h.1
 
-theorem tiFacts {ti : Terminfo} (h : XtermLike ti = true) : TiFacts ti := by
+theorem xl_noCorner {ti : Terminfo} (h : XtermLike ti = true) :
+    (ti.autoMargin && ti.disableAutoMargin.isEmpty && !ti.insertChar.isEmpty) = false := by
+  simp only [XtermLike, tiOk, Bool.and_eq_true] at h; exact (Bool.not_eq_true' _).mp h.1.2
+
+theorem tiFacts {ti : Terminfo} (h : CapsOk ti = true) : TiFacts ti := by
   have h1 := xl_tiOk h
-  simp only [tiOk, Bool.and_eq_true, and_assoc] at h1
-  obtain ⟨a1, a2, a3, a4, a5, a6, a7, a8, a9, a10, a11, a12, a13, a14, a15, a16, a17, a18⟩ := h1
+  simp only [tiCapsOk, Bool.and_eq_true, and_assoc] at h1
+  obtain ⟨a1, a2, a3, a4, a5, a6, a7, a8, a9, a10, a11, a12, a13, a14, a15, a17, a18⟩ := h1
   refine ⟨?_, by simpa using a2, by simpa using a3, ?_, by simpa using a5, optSent_of a6, optSent_of a7, optSent_of a8,
-    optSent_of a9, optSent_of a10, optSent_of a11, ?_, opt_of a13, opt_of a14, opt_of a15, (Bool.not_eq_true' _).mp a16,
+    optSent_of a9, optSent_of a10, optSent_of a11, ?_, opt_of a13, opt_of a14, opt_of a15,
     by simpa using a17, by simpa using a18⟩
   · simp only [List.any_eq_true, beq_iff_eq] at a1; exact a1
   · simp only [Bool.or_eq_true, Bool.and_eq_true, beq_iff_eq, List.contains_eq_mem, decide_eq_true_eq] at a4; exact a4
@@ -199,8 +202,8 @@ structure DFacts (d : Derived) : Prop where
   cstyles : d.cursorStyles = none ∨ d.cursorStyles = some cursorStylesStd
   coh : d.underRGB.isEmpty = d.underColor.isEmpty
 
-theorem dFacts {rc : RenderCfg} (hx : XtermLike rc.ti = true) (hd : rc.d = derive rc.ti) : DFacts rc.d := by
-  have h2 : dOk rc.d = true := by rw [hd]; simp only [XtermLike, Bool.and_eq_true] at hx; exact hx.2
+theorem dFacts {rc : RenderCfg} (hx : CapsOk rc.ti = true) (hd : rc.d = derive rc.ti) : DFacts rc.d := by
+  have h2 : dOk rc.d = true := by rw [hd]; simp only [CapsOk, Bool.and_eq_true] at hx; exact hx.2
   simp only [dOk, Bool.and_eq_true, Bool.or_eq_true, beq_iff_eq, and_assoc] at h2
   obtain ⟨b1, b3, b4, b5, b6, b7, b8, b9, b10, b11⟩ := h2
   exact ⟨b1, opt_of b3, opt_of b4, opt_of b5, opt_of b6, opt_of b7, opt_of b8, opt_of b9, b10, b11⟩
@@ -213,7 +216,7 @@ theorem csiSeq_clean (body : List Nat) (final : Nat) (hb : ∀ b ∈ body, b ≠
 
 /-- **cursor addressing**: `TPuts(TGoto(x, y))` on a terminal of the class (standard `cup`, with or without the padding of
     the DEC entries), for every position a Go int can hold -/
-theorem xl_goto_effect {rw} {rc : RenderCfg} (hx : XtermLike rc.ti = true) {t : Term} (g : Good rw t) (x y : Nat)
+theorem xl_goto_effect {rw} {rc : RenderCfg} (hx : CapsOk rc.ti = true) {t : Term} (g : Good rw t) (x y : Nat)
     (hx1 : (x : Int) + 1 < TParm.maxInt64) (hy1 : (y : Int) + 1 < TParm.maxInt64) :
     t.feed (Render.render rc (.goto x y)) =
       { t with cx := min x (t.w - 1), cy := min y (t.h - 1), pendingWrap := false, cursorKnown := true } := by
@@ -255,7 +258,7 @@ theorem hideForm_effect {rw} {t : Term} (g : Good rw t) (s : Bytes) (hs : s ∈ 
     rw [← feed_append, hide_effect g, linuxCursor_effect (t := { t with modes := { t.modes with cursorVisible := false } })
       (good_of_eq g rfl rfl ⟨rfl, rfl, rfl, rfl, rfl⟩ rfl) 1 (by omega)]
 
-theorem xl_hide_effect {rw} {rc : RenderCfg} (hx : XtermLike rc.ti = true) {t : Term} (g : Good rw t)
+theorem xl_hide_effect {rw} {rc : RenderCfg} (hx : CapsOk rc.ti = true) {t : Term} (g : Good rw t)
     (hne : rc.ti.hideCursor ≠ []) :
     ∃ m', t.feed (Render.render rc .hideCursor) = { t with modes := m' } ∧ ModesOk t.modes m' ∧ m'.cursorVisible = false ∧
       m'.cursorShape = t.modes.cursorShape := by
@@ -265,7 +268,7 @@ theorem xl_hide_effect {rw} {rc : RenderCfg} (hx : XtermLike rc.ti = true) {t : 
   · exact absurd h.2 hne
 
 /-- **attributes off** (`sgr0`) in any of the forms of the class = SGR reset -/
-theorem xl_attrOff_effect {rw} {rc : RenderCfg} (hx : XtermLike rc.ti = true) {t : Term} (g : Good rw t) :
+theorem xl_attrOff_effect {rw} {rc : RenderCfg} (hx : CapsOk rc.ti = true) {t : Term} (g : Good rw t) :
     t.feed (tp rc rc.ti.attrOff) = reset t := by
   rw [tp_strip]; exact attrOff_effect g _ (tiFacts hx).attrOff
 
